@@ -456,6 +456,7 @@ def rule_cache_barriers(ctx):
     if not r.require_anchor(enums, "event enum constructed by DynamicSolver update methods"):
         return
     n_scans = 0
+    scan_owners = set()
     for epath, upd in sorted(enums.items()):
         adt = prog.adt(epath)
         idx = {v["name"]: str(v["idx"]) for v in adt["variants"]}
@@ -473,6 +474,7 @@ def rule_cache_barriers(ctx):
                     res = _closure_scan(prog, b, sw, adt, upd)
                     if res is not None:
                         n_scans += 1
+                        scan_owners.add(epath)
                         barrier, answers = res
                         for vname in sorted(upd):
                             anchor = "%s|%s" % (b.id, vname)
@@ -484,6 +486,7 @@ def rule_cache_barriers(ctx):
                 if any(_ops_called(prog, b, _arm_region(b, sw, bb2)) for v2, bb2 in sw.node["targets"] if {str(x["idx"]): x["name"] for x in adt["variants"]}.get(v2) in upd):
                     continue  # the replay loop (applies the events to the inner encoder): checked by log-and-replay
                 n_scans += 1
+                scan_owners.add(epath)
                 head = loops[0]
                 loop_blocks = dict(b.loops())[head]
                 t = sw.node
@@ -528,6 +531,15 @@ def rule_cache_barriers(ctx):
                     if ro and all(o.kind == "call" and not o.fields and prog.body_for_callee(o.data, cl) is b for o in ro):
                         names.add(cl.path)
             users = [(y, cs) for y in prog.lib_bodies() for cs in y.calls() if callee_of(cs) and names & set(callee_of(cs).get("fn_args") or []) and re.search(r"Iterator::(map_while|take_while)$", callee_decl(callee_of(cs)) or "")]
+            if not users and b.ret_ty.startswith("core::option::Option<"):
+                # `log.iter().rev().map(Event::as_record).take_while(Option::is_some)`: the function names the barrier, `is_some` cuts at it
+                for y in prog.lib_bodies():
+                    for cs in y.calls():
+                        c0 = callee_of(cs)
+                        if c0 and re.search(r"Iterator::take_while$", callee_decl(c0) or "") and any(re.search(r"option::Option::(<.*>::)?is_some$", fa) for fa in (c0.get("fn_args") or [])):
+                            for o in origins(y, cs.node["args"][0], transparent=()):
+                                if o.kind == "call" and re.search(r"Iterator::map$", callee_decl(o.data) or "") and names & set(o.data.get("fn_args") or []):
+                                    users.append((y, cs))
             if not users:
                 continue
 
@@ -556,9 +568,13 @@ def rule_cache_barriers(ctx):
                 for c2 in cons or [cs]:
                     consumers_.add((c2.body.id, c2.bb))
             n_scans += len(consumers_)
+            if consumers_:
+                scan_owners.add(epath)
             for vname in sorted(upd):
                 r.check(vname in barrier, "%s|%s" % (b.id, vname), "continues-scan", "update event %s ends the view of the log that the look-ups scan" % vname, "the view of the log the cache look-ups scan does not end at the update event %s: an answer cached before the update can be returned after it" % vname, b.loc())
-    r.floor(n_scans, 4, "cache look-up scans (2 encoders x credulous/skeptical)")
+    # merging the two look-ups of an encoder into one scan halves the count: what cannot shrink is the number of event logs that are scanned
+    r.floor(len(scan_owners), 2, "event logs with a cache look-up scan (one per buffered encoder)")
+    r.floor(n_scans, 2, "cache look-up scans")
 
 
 # ------------------------------------------------------------------------------------------
@@ -657,7 +673,7 @@ def rule_log_and_replay(ctx):
                     # the method itself and the private helpers of its type it calls (a helper shared by both query kinds)
                     group = [qb0]
                     for x in prog.reachable_from([qb0], virtual_dispatch=False).values():
-                        if x is not qb0 and x.kind != "closure" and x.impl and x.impl.get("self_adt") == sadt and not x.impl.get("trait") and x not in group:
+                        if x is not qb0 and _in_query_group(x, sadt) and x not in group:
                             group.append(x)
                     counted = False
                     for qb in group:
@@ -676,6 +692,15 @@ def rule_log_and_replay(ctx):
                             ok = bool(calls_h) and all(any(qb0.dominates(rp, s) for rp in reps0) for s in calls_h)
                         r.check(ok, qb.id, "solve-before-replay", "pending updates are replayed before every SAT call of the query", "a SAT call of the query is not preceded by the replay of pending updates", qb.loc())
     r.floor(n_q, 5, "query methods with SAT calls in buffered dynamic solvers")
+
+
+def _in_query_group(x, sadt):
+    """a private helper the query may hand its SAT call to: a method of the solver's own type, or of another type of the dynamics module
+    (the buffered encoder the solver holds) that is not a trait method"""
+    if x.kind == "closure" or not x.impl or x.impl.get("trait"):
+        return False
+    sa_ = x.impl.get("self_adt") or ""
+    return sa_ == sadt or sa_.startswith("dynamics::")
 
 
 def rule_cache_kinds(ctx):
@@ -965,7 +990,7 @@ def rule_encoder_assumptions_reach_sat_calls(ctx):
                     qb0 = prog.lib(m["path"])
                     if qb0 is None:
                         continue
-                    group = [qb0] + [x for x in prog.reachable_from([qb0], virtual_dispatch=False).values() if x is not qb0 and x.kind != "closure" and x.impl and x.impl.get("self_adt") == sadt and not x.impl.get("trait")]
+                    group = [qb0] + [x for x in prog.reachable_from([qb0], virtual_dispatch=False).values() if x is not qb0 and _in_query_group(x, sadt)]
                     for qb in group:
                         uses_enc = any(re.search(r"::assumptions$", strip_generics(callee_name(callee_of(s)) or "")) for y in prog.with_closures(qb) for s in y.calls())
                         for s in qb.calls():
